@@ -266,5 +266,66 @@ func verifControlLAY8Good(reader *listBinaryPropertyReader, in io.Reader, n int)
 	return indices, uvs, nil
 }
 
+// ---- LAY-9 -----------------------------------------------------------------
+
+// must fire: the Y arm overwrites the group's type without the still-unset guard
+func (v2pr Vector2PropertyReader) verifControlLAY9BadAscii(element Element) asciiPropertyReader {
+	xOffset, yOffset := -1, -1
+	var st ScalarPropertyType
+	for i, prop := range element.Properties {
+		scalar := prop.(ScalarProperty)
+		if scalar.PropertyName == v2pr.PlyPropertyX {
+			xOffset = i
+			if st == "" {
+				st = scalar.Type
+			}
+			if st != scalar.Type {
+				xOffset = -1
+			}
+		}
+		if scalar.PropertyName == v2pr.PlyPropertyY {
+			yOffset = i
+			st = scalar.Type
+			if st != scalar.Type {
+				yOffset = -1
+			}
+		}
+	}
+	if xOffset > -1 && yOffset > -1 {
+		return &builtAsciiVector2PropertyReader{arr: make([]vector2.Float64, element.Count), xOffset: xOffset, yOffset: yOffset, scalarType: st}
+	}
+	return nil
+}
+
+func (v2pr Vector2PropertyReader) verifControlLAY9GoodAscii(element Element) asciiPropertyReader {
+	xOffset, yOffset := -1, -1
+	var st ScalarPropertyType
+	for i, prop := range element.Properties {
+		scalar := prop.(ScalarProperty)
+		switch scalar.PropertyName {
+		case v2pr.PlyPropertyX:
+			xOffset = i
+			if string(st) == "" {
+				st = scalar.Type
+			}
+			if st != scalar.Type {
+				xOffset = -1
+			}
+		case v2pr.PlyPropertyY:
+			yOffset = i
+			if len(st) == 0 {
+				st = scalar.Type
+			}
+			if scalar.Type != st {
+				yOffset = -1
+			}
+		}
+	}
+	if xOffset > -1 && yOffset > -1 {
+		return &builtAsciiVector2PropertyReader{arr: make([]vector2.Float64, element.Count), xOffset: xOffset, yOffset: yOffset, scalarType: st}
+	}
+	return nil
+}
+
 var _ = binary.LittleEndian
 `
